@@ -194,7 +194,7 @@ Expressible(i) ==
     /\ (i.v.k \notin {"text", "num"} => i.mods \subseteq {"html_quote", "newline_to_br"})
     /\ (i.v.k = "num" => i.mods \cap {"sql_quote"} = {})
     /\ (i.fmt = "collection-length" => i.v.k = "text")
-    /\ (i.v.k = "missing" => i.form = "name")
+    /\ (i.v.k \in {"missing", "kerr"} => i.form = "name")
     /\ (i.v.tnt => \E j \in 1..Len(i.v.s) : Base(i.v.s[j]) = 60)   \* tainted = untrusted data containing '<' 
     /\ (i.etc # "default" => i.size # -1)
 
@@ -217,6 +217,9 @@ Lookup ==
     /\ IF inp.v.k = "missing"
        THEN IF inp.missing THEN Finish(MIS)
             ELSE Finish(<<75, 69>>)                    \* KeyError ("KE")
+       \* a defined name whose evaluation (a callable, a sub-template) raises KeyError is not an undefined name:
+       \* the error propagates whether or not missing= is given
+       ELSE IF inp.v.k = "kerr" THEN Finish(<<75, 69>>)
        ELSE /\ val' = inp.v.s /\ tnt' = inp.v.tnt
             /\ stage' = IF Simple \/ SimpleH THEN "fast" ELSE "null"
             /\ UNCHANGED <<inp, mi, ret>>
